@@ -71,7 +71,8 @@ NcInDomain(ev) ==
     LET f == FmtOf(ev) fn == ev.op x == Val(ev, ev.x) IN
     IF fn \in ExactUnaryInt THEN TRUE
     ELSE IF fn \in ExactUnaryLong THEN LongInRange(f, LongRounded(f, fn, x))
-    ELSE IsFinite(f, Val(ev, ev.c))
+    ELSE IF fn \in ExactUnaryFp \cup ExactBinary THEN IsFinite(f, Val(ev, ev.c))
+    ELSE IsNormal(f, Val(ev, ev.c)) \/ (IsZero(Val(ev, ev.c)) /\ IsZero(x))     \* approximate set: no underflow either
 
 Judge(ev) ==
     IF "crash" \in DOMAIN ev THEN "crash"
